@@ -57,6 +57,13 @@ theorem struct_members_nodup (ft : Feat) (ident : Bytes → Bytes) (raw : Bytes)
     (reservedFuncs ft cat raw ++ fs.flatMap fieldMethodNames ++ fs.map (·.name)).Nodup :=
   Names.buildMembers_nodup ft ident raw cat fields ns fs h hid hraw
 
+/-- the hypotheses are satisfiable: `struct S {1: i32 a, -2: optional i32 b}` with setters and DeepEqual -/
+example : (memberIds { setter := true, deq := true } id [83] .struct
+      [{ name := [97], id := 1, isset := false }, { name := [98], id := -2, isset := true }]).Nodup ∧
+    (∀ f ∈ ([{ name := [97], id := 1, isset := false }, { name := [98], id := -2, isset := true }] : List Fld),
+      hasDollar f.name = false) := by
+  decide
+
 /-- Parameter names are pairwise distinct, differ from the names the templates use in a method body
     (`p, err, ctx` and, for non-void functions, `r, _result`) and are not keywords (of the table in types.go). -/
 theorem func_params_safe (ft : Feat) (ident : Bytes → Bytes) (kw : List Bytes) (f : Fn) (ns : NS)
@@ -67,6 +74,12 @@ theorem func_params_safe (ft : Feat) (ident : Bytes → Bytes) (kw : List Bytes)
     let ps := f.args.map (fun a => ns.get a.name)
     ps.Nodup ∧ (∀ p ∈ ps, p ∉ fnReserved f.void) ∧ (∀ p ∈ ps, p ∉ kw) :=
   Names.buildFunction_safe ft ident kw f ns h hargs hraw hkw
+
+/-- the hypotheses are satisfiable: `void f(1: i32 type, 2: i32 p) throws (1: X e)` with the regenerated keyword table -/
+example : ∃ ns, buildFunction {} id Generated.C01.isKeywords
+      { name := [102], oneway := false, void := true,
+        args := [{ name := [116, 121, 112, 101], id := 1, isset := false }, { name := [112], id := 2, isset := false }],
+        throws := [{ name := [101], id := 1, isset := true }] } = .ok ns := ⟨_, rfl⟩
 
 /-- the regenerated keyword table of types.go covers the keywords of the Go toolchain, and no keyword has a '_' -/
 theorem keywords_cover :
@@ -98,6 +111,11 @@ theorem scope_globals_complete_partial (ft : Feat) (kw : List Bytes) (f : File) 
     (s : ScopeNames) (h : buildScope ft kw f ident = .ok s) (hid : (globalIds ft ident f).Nodup)
     (hm : noMintClash ft s = true) : (fileGlobals ft s).Nodup :=
   Names.fileGlobals_nodup ft kw f ident s h hid hm
+
+/-- `noMintClash` is satisfiable: `enum A {B}` + `struct S {}` -/
+example : ∃ s, buildScope {} [] { structs := [{ name := [83], cat := .struct, fields := [] }],
+                                  enums := [{ name := [65], values := [[66]] }] } id = .ok s ∧ noMintClash {} s = true :=
+  ⟨_, rfl, by decide⟩
 
 /-- the thriftgo naming style on the two names of the witness: `a__b` ↦ `A_B`, `A` ↦ `A` -/
 def witnessIdent (raw : Bytes) : Bytes := if raw = [97, 95, 95, 98] then [65, 95, 66] else raw
